@@ -1,5 +1,5 @@
 import AcraModel.Basic.Bytes
-import AcraModel.Sql.Tokenizer
+import AcraModel.Sql.TokenizerLoop
 /-! Driver ops for C14: the SQL tokenizer. -/
 namespace Driver.C14
 open AcraModel AcraModel.Sql.Tokenizer
@@ -27,35 +27,15 @@ def renderTok (t : Token) (pos : Nat) : String :=
   | some n => s!"{n}:{hexOf t.val}:{pos}"
   | none => s!"?:{hexOf t.val}:{pos}"
 
-partial def loopTmp (dd : Dialect) (l : List Frame) (acc : Array String) : String :=
-  match l with
-  | [] => "bad"
-  | f :: sp =>
-    -- nested first
-    let inner : Option (Option (Token × List Frame)) :=
-      match sp with
-      | [] => some none
-      | g :: _ =>
-        match scanCore g with
-        | .ok (.tok t g') => if t.typ = .eof then some none else some (some (t, [f, g']))
-        | _ => none
-    match inner with
-    | none => "panic"
-    | some (some (t, l')) => loopTmp dd l' (acc.push (renderTok t f.pos))
-    | some none =>
-      match scanCore f with
-      | .ok (.tok t f') =>
-        let acc := acc.push (renderTok t f'.pos)
-        if t.typ = .eof then " ".intercalate acc.toList else loopTmp dd [f'] acc
-      | .ok (.special sql f') => loopTmp dd [f', newFrame dd sql] acc
-      | _ => "panic"
-
 def handle (op : String) (args : List String) : Option String :=
   match op, args with
   | "tokens", [spec, h] => do
       let (o, i, multi) ← parseSpec spec
       let b ← ofHex h
-      pure (loopTmp i [{ dialect := o, buf := b, multi := multi }] #[])
+      match tokenizeFrom i (initial o b multi) with
+      | .ok ts => pure (" ".intercalate (ts.map fun p => renderTok p.1 p.2))
+      | .err => pure "err"
+      | .panic => pure "panic"
   | _, _ => none
 
 end Driver.C14
